@@ -39,7 +39,9 @@ def _case(draw):
                          st.tuples(st.just('mask'), st.integers(0, (1 << min(total, 60)) - 1)).map(list),
                          st.tuples(st.just('near'), st.lists(st.tuples(st.integers(0, n), st.integers(-3, 9)), min_size=1, max_size=5)).map(
                              lambda t: [t[0], [list(x) for x in t[1]]])))
-    return {'framing': framing, 'dir': direction, 'uid': uid, 'frames': frames, 'cut': cut}
+    return {'framing': framing, 'dir': direction, 'uid': uid, 'frames': frames, 'cut': cut,
+            # empty reads (a read that returns nothing) inserted between the chunks, also in the middle of a frame
+            'empties': draw(st.one_of(st.just([]), st.lists(st.integers(0, 40), min_size=1, max_size=4)))}
 
 
 def _flen(framing, pdulen):
@@ -74,6 +76,15 @@ def sweeps(tier):
             for mask in range(1 << (n - 1)):
                 cases.append({'framing': framing, 'dir': d, 'uid': 5, 'frames': [{'tid': 1, 'pdu': a}, {'tid': 2, 'pdu': b}], 'cut': ['mask', mask]})
     out.append(('all-cut-sets-of-two-frame-streams', cases, True))
+    cases = []
+    for framing in FRAMINGS:
+        for d in ('req', 'rsp'):
+            hx = singles[d][0]
+            n = _flen(framing, len(hx) // 2)
+            for cutpos in range(1, n):
+                cases.append({'framing': framing, 'dir': d, 'uid': 5, 'frames': [{'tid': 9, 'pdu': hx}, {'tid': 10, 'pdu': hx}],
+                              'cut': ['at', [cutpos]], 'empties': [1]})
+    out.append(('one-empty-read-at-every-position-of-a-frame', cases, True))
     return out
 
 
@@ -126,6 +137,8 @@ def run_case(case):
     if berr is not None or base != want:
         return Outcome([], labels + ['excluded-baseline-not-clean'], False)
     chunks = chunks_of(stream, case['cut'], bounds)
+    for pos_ in sorted(case.get('empties') or [], reverse=True):
+        chunks.insert(pos_ % (len(chunks) + 1), b'')
     inner = set(bounds[1:-1])
     cutpos, p = [], 0
     for c in chunks[:-1]:
@@ -145,6 +158,12 @@ def run_case(case):
         labels.append('chunk-spans-frames')
     if any(len(c) == 0 for c in chunks):
         labels.append('empty-read')
+        p_ = 0
+        for c in chunks:
+            if not c and p_ not in bounds:
+                labels.append('empty-read-inside-frame')
+                break
+            p_ += len(c)
     got, err, left = deliver(framing, direction, uid, chunks)
     discs = []
     if err is not None:
